@@ -17,6 +17,8 @@ INVARIANT RawTagOK
 INVARIANT RawProbeOK
 INVARIANT BlockTagOK
 INVARIANT TagProbeOK
+INVARIANT SideProbeOK
+INVARIANT RawAfterProbeOK
 INVARIANT ZeroUnitOK
 INVARIANT UnitProbeOK
 INVARIANT JsMimeOK
